@@ -111,11 +111,12 @@ func c13Occurrence(c *vrep.Ctx) {
 		sep  string
 	}{{"none", nil, " "}, {"FlattenWhitespace", []NormalizeFunc{FlattenWhitespace}, " \n  "}}
 	ts := []float64{0.5, 0.8, 1}
-	c.R.Rule = fmt.Sprintf("ALL known-value sets over tokens {a,b,c,','}: every single value of 1..%d tokens, every pair of values of 1..%d tokens (none inside another; second value absent, or both present separated by an unrelated token) and long values of 40/80 tokens x ALL unknowns pre+K+post with pre/post of 0..%d tokens over {x,y,a} containing exactly one occurrence of K (family 'glued' attaches word or punctuation context without a blank: glued punctuation leaves the copy token aligned and is demanded exactly, glued letters are the recorded finding) x normaliser lists {none, FlattenWhitespace with multi-blank separators} x thresholds %v; MultipleMatch must report K with Confidence 1.0 and Offset/Extent of exactly that copy, NearestMatch(K) = (K, 1.0), all confidences in (0,1], all ranges inside the normalised unknown; library goroutines run as modelled threads (default schedule); non-trivial = distinct (value set, unknown, normaliser, threshold) cases", maxTok, pairTok, maxCtx, ts)
+	c.R.Rule = fmt.Sprintf("ALL known-value sets over tokens {a,b,c,','}: every single value of 1..%d tokens, every pair of values of 1..%d tokens (none inside another; second value absent, or both present separated by an unrelated token) and long values of 40/80 tokens, alone or next to a registered near-duplicate (one character of one token changed, 40/80/400 tokens, its name sorting before or after) x ALL unknowns pre+K+post with pre/post of 0..%d tokens over {x,y,a} containing exactly one occurrence of K (family 'glued' attaches word or punctuation context without a blank: glued punctuation leaves the copy token aligned and is demanded exactly, glued letters are the recorded finding) x normaliser lists {none, FlattenWhitespace with multi-blank separators} x thresholds %v; MultipleMatch must report K with Confidence 1.0 and Offset/Extent of exactly that copy, NearestMatch(K) = (K, 1.0), all confidences in (0,1], all ranges inside the normalised unknown; library goroutines run as modelled threads (default schedule); non-trivial = distinct (value set, unknown, normaliser, threshold) cases", maxTok, pairTok, maxCtx, ts)
 	c.Bound("max_value_tokens", maxTok)
 	c.Bound("max_context_tokens", maxCtx)
 	body := func(r *vx.Run) {
-		fam := r.Choose(5, "family") // 0 single value, 1 pair (second value absent), 2 glued context, 3 both values present, 4 long value
+		fam := r.Choose(6, "family") // 0 single value, 1 pair (second value absent), 2 glued context, 3 both values present, 4 long value, 5 long value + registered near-duplicate
+		name2 := "K2"
 		var k1, k2 c13Value
 		two := false
 		switch fam {
@@ -132,6 +133,20 @@ func c13Occurrence(c *vrep.Ctx) {
 			for i := 0; i < n; i++ {
 				k1.toks = append(k1.toks, pat.toks[i%len(pat.toks)]+alpha[(i/len(pat.toks))%2])
 			}
+		case 5:
+			// a long value and a second registered value that differs from it in one character of one
+			// token (confidence of the near-duplicate 0.99+); only the first occurs verbatim; the
+			// near-duplicate's name sorts before or after the verbatim value's
+			pat := small[r.Choose(c.Pick(4, len(small)), "pattern")]
+			n := []int{40, 80, 400}[r.Choose(3, "length")]
+			for i := 0; i < n; i++ {
+				k1.toks = append(k1.toks, pat.toks[i%len(pat.toks)]+alpha[(i/len(pat.toks))%2])
+			}
+			at := []int{0, n / 2, n - 1}[r.Choose(3, "changed token")]
+			k2.toks = append([]string(nil), k1.toks...)
+			k2.toks[at] = k2.toks[at][:len(k2.toks[at])-1] + "q"
+			name2 = []string{"A0", "Z9"}[r.Choose(2, "near-duplicate's name")]
+			two = true
 		}
 		pre := ctxs[r.Choose(len(ctxs), "pre")]
 		post := ctxs[r.Choose(len(ctxs), "post")]
@@ -171,7 +186,7 @@ func c13Occurrence(c *vrep.Ctx) {
 			panic(err)
 		}
 		if two {
-			cl.AddValue("K2", strings.Join(k2.toks, nm.sep))
+			cl.AddValue(name2, strings.Join(k2.toks, nm.sep))
 			id += fmt.Sprintf(",%q", k2.text())
 		}
 		id += fmt.Sprintf("} unknown %q norm=%s T=%v", unknown, nm.name, ts[ti])
